@@ -156,8 +156,14 @@ class Campaign:
             res["why"] = "harness exit %d: %s" % (rc, out[-300:])
             return res
         spec, cfgf = getattr(self, "trace_spec", ("TimeWarpTrace.tla", "TimeWarpTrace.cfg"))
-        v = vlib.validate_trace(spec, cfgf, trace, ref=md["ref"], timeout=900)
+        v = vlib.validate_trace(spec, cfgf, trace, model=md.get("model"), ref=md["ref"], timeout=900)
         res["v"] = v
+        import re as _re
+        dm = _re.search(r'"DIVERGENCES",\s*\[\s*n \|->\s*(\d+)', v["out"])
+        res["div"] = int(dm.group(1)) if dm else 0
+        if res["div"]:
+            dw = _re.search(r'first \|->\s*\[\s*w \|->\s*"([^"]*)"', v["out"], _re.S)
+            res["div_first"] = _re.sub(r"\s+", " ", dw.group(1)) if dw else ""
         res["verdict"] = v["verdict"]
         if getattr(self, "want_stats", False) and rc == 0 and v["verdict"] == "ok" and os.path.exists(trace + ".st.bin"):
             # the shipped parser must accept the file as well
@@ -182,6 +188,10 @@ class Campaign:
             self.stats["states"] += v["distinct"]
             if v.get("res"):
                 self.stats["lines"] += v["res"]["reached"]
+        if res.get("div"):
+            self.stats["divergences"] = self.stats.get("divergences", 0) + res["div"]
+            self.stats.setdefault("divergence_kinds", {})
+            self.stats["divergence_kinds"][res.get("div_first", "?")] = self.stats["divergence_kinds"].get(res.get("div_first", "?"), 0) + 1
         if os.path.exists(res["trace"]):
             txt = open(res["trace"]).read()
             self.stats["rollbacks"] += txt.count('"e":"RbBegin"')
@@ -303,7 +313,7 @@ class Campaign:
                     for line in open(tr):
                         f.write(line)
                         n += 1
-            v = vlib.validate_trace("TimeWarpTrace.tla", "TimeWarpTrace.cfg", cat, ref=md["ref"], timeout=1500)
+            v = vlib.validate_trace("TimeWarpTrace.tla", "TimeWarpTrace.cfg", cat, model=md.get("model"), ref=md["ref"], timeout=1500)
             return (v, offs, cat)
 
         for (v, offs, cat) in vlib.pmap(val, list(enumerate(chunks))):
@@ -447,6 +457,7 @@ class Campaign:
                "known_finding_hits": len(self.known), "other_property_failures": len(self.other),
                "driver_lines_validated": self.stats.get("driver_lines", 0), "conformance_divergences": self.stats.get("divergences", 0),
                "model_checking_runs": self.stats.get("mc", []),
+               "conformance_divergence_kinds": self.stats.get("divergence_kinds", {}),
                "micro_model_runs_on_real_code": self.stats.get("micro_runs", 0), "micro_model_distinct_interleavings": self.stats.get("micro_distinct", 0),
                "exhaustive": False}
         if extra_cov:
